@@ -71,7 +71,13 @@ def recompute(ctx, case, out, p):
     f = case.f
     np.random.seed(p["seed"] % (2 ** 31))
     ci = [2.5, 25.0, 50.0, 75.0, 97.5]
+    if p["seed"] % 3 == 1:
+        ci = ci[::-1]          # the requested percentiles in descending ...
+    elif p["seed"] % 3 == 2:
+        ci = [97.5, 2.5, 50.0, 25.0, 75.0]   # ... or in no particular order: every bound must sit under its own CI label
     mc = mc_call(case, out, case.variances(), conf_ints=ci, mc_sample_size=40, mc_remove_set_flag=False)
+    if list(np.asarray(mc.CI.values, float)) != ci:
+        ctx.violation(f"ci-labels-reordered:{'de' if f.double else 'se'}", f"the CI coordinate {mc.CI.values.tolist()} is not the requested list {ci}", p)
     x = f.ds.x.values
     tag = "de" if f.double else "se"
     if f.double:
@@ -99,7 +105,7 @@ def recompute(ctx, case, out, p):
         q = np.percentile(got, ci, axis=0)
         if not np.allclose(mc[k + "_mc"].values, q, rtol=1e-9, atol=1e-9, equal_nan=True):
             ctx.violation(f"ci-not-percentiles:{k}:{tag}", f"{k}_mc is not the requested sample percentiles", p)
-        c = mc[k + "_mc"].values
+        c = mc[k + "_mc"].values[np.argsort(ci)]
         if np.any(np.diff(c, axis=0) < -1e-12):
             ctx.violation(f"ci-not-monotone:{k}:{tag}", "confidence bounds decrease along CI", p)
     # the sampled parameters are centred on the p_val entries they belong to (coarse: within 6 sigma of the mean of 40)
